@@ -79,8 +79,10 @@ def main():
         dst = os.path.join('/verif/seeded', keep)
         os.makedirs(dst, exist_ok=True)
         for f in ('patch.diff', 'demo_test.go'):
-            shutil.copy(os.path.join(sd, f), os.path.join(dst, f))
-        meta['confirmed'] = ran
+            if os.path.abspath(os.path.join(sd, f)) != os.path.abspath(os.path.join(dst, f)):
+                shutil.copy(os.path.join(sd, f), os.path.join(dst, f))
+        if ran:
+            meta['confirmed'] = ran
         meta['check_result'] = dict(cmd=cmd, rc=crc, caught=caught, violations=viol[:5])
         json.dump(meta, open(os.path.join(dst, 'meta.json'), 'w'), indent=1)
     return 0
